@@ -22,6 +22,38 @@ func init() {
 }
 
 func runC29(c *eng.Ctx) {
+
+	// the '..' test looks at every path segment: a segment is a whole element between slashes, first and last included
+	if fn := c.NeedFunc("weed/s3api", "hasDotDotSegment"); fn != nil {
+		split := false
+		for _, in := range eng.Find(fn, eng.PlainCallTo("strings.Split")) {
+			if k, ok := eng.ConstString(in.(*ssa.Call).Call.Args[1]); ok && k == "/" {
+				split = true
+			}
+		}
+		isDots := eng.Cmp(func(v ssa.Value) bool { _, isK := eng.ConstString(v); return !isK }, func(v ssa.Value) bool { k, ok := eng.ConstString(v); return ok && k == ".." }, token.EQL)
+		var trues, falses []ssa.Instruction
+		for _, r := range eng.Find(fn, eng.IsReturn) {
+			for _, v := range eng.Resolve(r.(*ssa.Return).Results[0]) {
+				if b, ok := eng.ConstBool(v); ok && !b {
+					falses = append(falses, r)
+				} else {
+					trues = append(trues, r)
+				}
+			}
+		}
+		okShape := split && len(eng.PassEdges(fn, isDots)) > 0 && len(trues) > 0 && len(falses) > 0
+		if okShape {
+			// "no" is answered only when no segment compared equal: unreachable from a pass edge
+			for _, st := range startsOf(eng.PassEdges(fn, isDots)) {
+				if hit, _ := eng.Search(st, eng.AnyOf(falses), eng.SearchOpt{}); hit != nil {
+					okShape = false
+				}
+			}
+		}
+		c.Ob("GUARD-dotdot", eng.FuncName(fn)+" every-segment-compared", okShape && len(eng.Find(fn, eng.PlainCallTo("strings.Contains", "strings.HasPrefix", "strings.HasSuffix", "strings.Index"))) == 0, fn.Pos(),
+			"the path is split at every slash and each element is compared with \"..\" as a whole (substring tests miss a leading or trailing element)")
+	}
 	P := c.P
 	// ---------------------------------------------------------------- (1) TAINT-http-read
 	readSinks := eng.PlainCallTo("util.DownloadFile", "util.ReadUrlAsReaderCloser", "util.Get", "util.ReadUrl")
